@@ -1,24 +1,45 @@
-"""translate.py — regenerates every coq/Gen/*.v from /repo's current working tree.
-Each harness/translate_<name>.py module provides regenerate() -> list of files written
-(it must write only when the content changed, and fail closed — raise — on source it does
-not recognise)."""
+"""translate.py — regenerate every coq/Gen/*.v from the working tree of the repository under test.
+
+Each translator is a module harness/translate_<name>.py with a function regenerate() that writes its
+coq/Gen/<Name>.v (only when the content changed) and raises on source it does not recognise
+(fail closed).  regenerate_all() is called by setup_all.py; every check calls the regenerate() of the
+translators it depends on itself, before ctx.prove()."""
 import importlib
 import os
+import sys
 
 HERE = os.path.dirname(os.path.abspath(__file__))
 
 
-def modules():
-    return sorted(f[:-3] for f in os.listdir(HERE) if f.startswith("translate_") and f.endswith(".py"))
-
-
-def regenerate_all():
-    out = {}
-    for m in modules():
-        mod = importlib.import_module(m)
-        out[m] = mod.regenerate()
+def translators():
+    out = []
+    for f in sorted(os.listdir(HERE)):
+        if f.startswith("translate_") and f.endswith(".py"):
+            out.append(f[:-3])
     return out
 
 
+def regenerate_all(strict=False):
+    """Run every translator.  Returns {module name: 'ok' | 'error: ...'}; with strict=True the first
+    failure is re-raised (a check treats a failing translator as a broken obligation itself)."""
+    if HERE not in sys.path:
+        sys.path.insert(0, HERE)
+    res = {}
+    for name in translators():
+        try:
+            mod = importlib.import_module(name)
+            mod.regenerate()
+            res[name] = "ok"
+        except Exception as e:  # fail closed: the Gen file is removed by the translator itself
+            if strict:
+                raise
+            res[name] = f"error: {type(e).__name__}: {e}"
+            print(f"translate: {name}: {res[name]}")
+    return res
+
+
 if __name__ == "__main__":
-    print(regenerate_all())
+    r = regenerate_all()
+    for k, v in r.items():
+        print(k, v)
+    sys.exit(0 if all(v == "ok" for v in r.values()) else 1)
